@@ -456,22 +456,31 @@ fn same_board_fields(a: &Board, b: &Board) -> bool {
         && a.checkers.0 == b.checkers.0 && a.pinned.0 == b.pinned.0
         && hash_of_z(&a.inner) == hash_of_z(&b.inner)
 }
-board_proof! {
-    fn c15_try_play_end_to_end_pieces() {
-        let p = any_inv_pos();
-        let b0 = mk_board(&p);
-        let m = any_move();
-        kani::assume(p.piece_at(mv_of(m).from) != sp::P as u8);
-        cut_on();
-        set_inv_off();
-        let mut b = b0.clone();
-        let r = b.try_play(m);
-        assert!(r.is_ok() == sp::spec_legal(&p, mv_of(m)));
-        if r.is_err() {
-            assert!(same_board_fields(&b, &b0));
-        }
+fn try_play_end_to_end(kind: u8) {
+    let p = any_inv_pos();
+    let b0 = mk_board(&p);
+    let m = any_move();
+    let own = p.colors[p.stm as usize];
+    if kind < 6 {
+        kani::assume(own & sp::bit(mv_of(m).from) != 0 && p.piece_at(mv_of(m).from) == kind);
+    } else {
+        kani::assume(own & sp::bit(mv_of(m).from) == 0);
+    }
+    cut_on();
+    set_inv_off();
+    let mut b = b0.clone();
+    let r = b.try_play(m);
+    assert!(r.is_ok() == sp::spec_legal(&p, mv_of(m)));
+    if r.is_err() {
+        assert!(same_board_fields(&b, &b0));
     }
 }
+board_proof! { fn c15_e2e_knight() { try_play_end_to_end(1); } }
+board_proof! { fn c15_e2e_bishop() { try_play_end_to_end(2); } }
+board_proof! { fn c15_e2e_rook() { try_play_end_to_end(3); } }
+board_proof! { fn c15_e2e_queen() { try_play_end_to_end(4); } }
+board_proof! { fn c15_e2e_king() { try_play_end_to_end(5); } }
+board_proof! { fn c15_e2e_none() { try_play_end_to_end(6); } }
 board_proof! {
     #[kani::unwind(9)]
     fn c15_try_play_end_to_end_pawn_illegal() {
